@@ -102,7 +102,7 @@ def r4(ctx):
     ctx.rule('C25-R4', 'KeySet::get (cipher for server-side decryption): returns None on a second cookie in the request and when decode_cookie fails')
     b = ctx.P.body('<ntp_proto::keyset::KeySet as ntp_proto::packet::crypto::CipherProvider>::get')
     nones = [(s, v) for s, v in ret_assigns(b) if v.startswith('Option::None') or 'from_residual' in v]
-    second = [s for s, v in nones if b.must_pass(s.bb, fact_call(r'Option::is_some$', True)) or b.must_pass(s.bb, fact_is(r'^decoded', 'Some', names=True))]
+    second = [s for s, v in nones if b.must_pass(s.bb, fact_call(r'Option::is_some$', True)) or b.must_pass(s.bb, fact_is(r'^\w+\{.*Option::Some\{0: .*KeySet::decode_cookie\(', 'Some'))]   # the accumulator that holds an earlier decoded cookie
     ctx.check('KeySet::get|second-cookie-aborts', len(second) >= 1, 'a second cookie no longer aborts the lookup', sample=[v[:60] for _, v in nones])
     dc = one(b.calls(r'KeySet::decode_cookie$'), 'decode_cookie')
     ctx.guard(b, dc, 'field-is-cookie', fact_is(r'.', ['NtsCookie']), key='KeySet::get|decode|cookie-field')
